@@ -16,6 +16,23 @@ for d, _, fs in os.walk(root):
         if not os.path.isdir(os.path.dirname(target)):
             print("overlay: package dir missing for", rel, file=sys.stderr); sys.exit(1)
         replace[target] = os.path.join(d, f)
+# patched copies: one inserted line in a copy of a /repo file (skipped with a note if the anchor is not there any more)
+PATCHES = [("pkg/memorypool/memorypool.go",
+            "\t\tif self.items[i].pointer == bufferPointer {\n\t\t\tself.items[i].inUse = false\n",
+            "\t\tif self.items[i].pointer == bufferPointer {\n\t\t\tif verifQuarantine(self.items[i].buffer) {\n\t\t\t\treturn nil\n\t\t\t}\n\t\t\tself.items[i].inUse = false\n")]
+work = os.path.join(os.path.dirname(os.path.abspath(out)), "patched-src")
+os.makedirs(work, exist_ok=True)
+for rel, old, new in PATCHES:
+    src = open(os.path.join(repo, rel)).read()
+    if src.count(old) != 1:
+        print("overlay: anchor for", rel, "not found; hook skipped", file=sys.stderr)
+        # the hook function must still be referenced nowhere: nothing to do
+        continue
+    q = os.path.join(work, rel.replace("/", "__"))
+    s2 = src.replace(old, new)
+    if not os.path.exists(q) or open(q).read() != s2:
+        open(q, "w").write(s2)
+    replace[os.path.join(repo, rel)] = q
 tmp = out + ".tmp%d" % os.getpid()
 json.dump({"Replace": replace}, open(tmp, "w"), indent=1)
 os.replace(tmp, out)
